@@ -59,11 +59,16 @@ def num_float(s):
     correctly rounded (Fraction.__float__ is), / and + are IEEE operations"""
     m = _DEC.match(s)
     if m:
-        v = float(Fraction(int(m.group(2)), 10 ** int(m.group(3))))
+        try:
+            v = float(Fraction(int(m.group(2)), 10 ** int(m.group(3))))
+        except OverflowError:
+            v = float("inf")          # f64::from_str rounds a literal beyond the range to infinity
         return -v if m.group(1) else v
     op, a, b = _split_args(s)
     x, y = num_float(a), num_float(b)
     if op == "/":
+        if y == 0:
+            return float("nan") if x == 0 or x != x else (float("inf") if (x > 0) == (math.copysign(1.0, y) > 0) else float("-inf"))
         return x / y
     if op == "+":
         return x + y
